@@ -226,7 +226,13 @@ func cmdRun(args []string) int {
 	foot := fs.Bool("footprint", false, "log footprints")
 	verbose := fs.Bool("v", false, "progress")
 	replay := fs.Bool("replay", true, "replay violations natively")
+	known := fs.String("known", "", "comma-separated known-finding ids to treat as live")
 	fs.Parse(args)
+	for _, id := range strings.Split(*known, ",") {
+		if id != "" {
+			symx.LiveFindings[id] = true
+		}
+	}
 	P, files, err := load()
 	if err != nil {
 		fmt.Fprintln(os.Stderr, err)
